@@ -3384,7 +3384,7 @@ theorem tdiv_cast (H rn : Nat) : Int.tdiv (H : Int) (rn : Int) = ((H / rn : Nat)
   exact (Int.natCast_ediv H rn).symm
 
 theorem pixel_unshuffle_agrees (s : Shape) (r : Int) (out : Shape)
-    (hnz : ∀ x ∈ s, x ≠ 0)
+    (hnz : ∀ x ∈ s.drop (s.length - 3), x ≠ 0)
     (h : pixel_unshuffle.spec s r = some out) : pixel_unshuffle.model s r = some out := by
   unfold pixel_unshuffle.spec at h
   split at h
@@ -3410,7 +3410,7 @@ theorem pixel_unshuffle_agrees (s : Shape) (r : Int) (out : Shape)
       have hsplit : numel s = numel (s.take k) * numel [c, H, W] := by
         rw [← hd, ← numel_append, List.take_append_drop]
       have hpos : ∀ x ∈ [c, H, W], x ≠ 0 := by
-        intro x hx; rw [← hd] at hx; exact hnz x (List.mem_of_mem_drop hx)
+        intro x hx; rw [← hd] at hx; exact hnz x hx
       have hc0 : c ≠ 0 := hpos c (by simp)
       have hH0 : H ≠ 0 := hpos H (by simp)
       have hW0 : W ≠ 0 := hpos W (by simp)
@@ -3714,5 +3714,150 @@ theorem vector_norm_agrees (s : Shape) (dims : Option (List Int)) (keep : Bool) 
   | some ds =>
     simp only at h ⊢
     exact reduceDyn_agrees s ds keep out h
+
+/-! ## slice element map -/
+
+theorem slice_start (d : Int) (start stop step : Option Int) (hd0 : 0 ≤ d) (hs : 0 < optI step 1) :
+    (sliceNorm d (optI start 0) (optI stop INT64_MAX) (optI step 1)).1 = slice.specStart d start := by
+  unfold sliceNorm slice.specStart clampI
+  have : optI step 1 > 0 := hs
+  simp only [this, if_true]
+  generalize optI start 0 = s0
+  simp only [Int.min_def, Int.max_def]
+  (repeat' split) <;> omega
+
+/-- value level: the source positions selected by the emitted `Slice` are the positions PyTorch's slice reads. -/
+theorem slice_index_map (d : Int) (start stop step : Option Int) (hd0 : 0 ≤ d) (hs : 0 < optI step 1) :
+    sliceIdx d (optI start 0) (optI stop INT64_MAX) (optI step 1) = slice.specIdx d start stop step := by
+  unfold sliceIdx slice.specIdx
+  have hl : sliceLen d (optI start 0) (optI stop INT64_MAX) (optI step 1) = (slice.specLen d start stop step).toNat := by
+    have := slice_len d start stop step hd0 hs
+    omega
+  rw [hl, slice_start d start stop step hd0 hs]
+
+/-! ## chunk: the Slice pieces partition the axis -/
+
+theorem flatMap_blocks (c m : Nat) :
+    (List.range m).flatMap (fun k => List.range' (k * c) c) = List.range' 0 (m * c) := by
+  induction m with
+  | zero => simp
+  | succ m ih =>
+    rw [List.range_succ, List.flatMap_append, ih]
+    simp only [List.flatMap_cons, List.flatMap_nil, List.append_nil]
+    have := @List.range'_append 0 (m * c) c 1
+    simp only [Nat.one_mul, Nat.zero_add] at this
+    rw [this]
+    congr 1
+    rw [Nat.succ_mul]
+
+/-- the `Slice` pieces of `aten_chunk` read the positions `0, 1, …, d-1` in order: consecutive, disjoint, covering the axis. -/
+theorem chunk_slices_partition (d chunks : Nat) (hch : 0 < chunks) :
+    (chunk.bounds d chunks).flatMap (fun b => List.range' b.1 (b.2 - b.1)) = List.range d := by
+  unfold chunk.bounds
+  by_cases hc0 : (d + chunks - 1) / chunks = 0
+  · simp only [hc0, if_true]
+    have hd : d = 0 := by
+      rcases Nat.eq_zero_or_pos d with h | h
+      · exact h
+      · exfalso
+        have : chunks ≤ d + chunks - 1 := by omega
+        have := Nat.div_pos this hch
+        omega
+    subst hd
+    induction chunks with
+    | zero => rfl
+    | succ n ih => simp [List.replicate_succ]
+  · simp only [hc0, if_false]
+    generalize hcdef : (d + chunks - 1) / chunks = c at *
+    have hc : 0 < c := by omega
+    have hd : 0 < d := by
+      rcases Nat.eq_zero_or_pos d with h | h
+      · subst h
+        have : (0 + chunks - 1) / chunks = 0 := Nat.div_eq_of_lt (by omega)
+        omega
+      · exact h
+    obtain ⟨hn1, hlo, hhi⟩ := ceil_facts d c hc hd
+    generalize hndef : (d + c - 1) / c = n at *
+    obtain ⟨m, rfl⟩ : ∃ m, n = m + 1 := ⟨n - 1, by omega⟩
+    simp only [Nat.add_sub_cancel] at hlo
+    rw [List.range_succ, List.map_append, List.flatMap_append]
+    have hfirst : ((List.range m).map (fun k => (k * c, min (k * c + c) d))).flatMap (fun b => List.range' b.1 (b.2 - b.1))
+        = List.range' 0 (m * c) := by
+      rw [List.flatMap_map, ← flatMap_blocks c m]
+      have hfun : ∀ k ∈ List.range m, (fun k => List.range' (k * c) (min (k * c + c) d - k * c)) k = (fun k => List.range' (k * c) c) k := by
+        intro k hk
+        have hk' : k < m := by simpa using hk
+        have : (k + 1) * c ≤ m * c := Nat.mul_le_mul_right c hk'
+        have h2 : k * c + c ≤ d := by rw [Nat.succ_mul] at this; omega
+        simp only [Nat.min_eq_left h2, Nat.add_sub_cancel_left]
+      simp only [List.flatMap_def]
+      rw [List.map_congr_left hfun]
+    rw [hfirst]
+    simp only [List.map_cons, List.map_nil, List.flatMap_cons, List.flatMap_nil, List.append_nil]
+    have hlast : min (m * c + c) d = d := by
+      rw [Nat.succ_mul] at hhi; omega
+    rw [hlast, List.range_eq_range']
+    have := @List.range'_append 0 (m * c) (d - m * c) 1
+    simp only [Nat.one_mul, Nat.zero_add] at this
+    rw [this]
+    congr 1; omega
+
+/-! ## diagonal element map -/
+
+theorem diagonal_pos (rows cols offset : Int) (t : Nat)
+    (ht : t < (diagonal.specLen rows cols offset).toNat) :
+    diagonal.modelPos rows cols offset t = some (diagonal.specPos offset t) := by
+  unfold diagonal.specLen at ht
+  unfold diagonal.modelPos diagonal.specPos
+  simp only [Int.min_def, Int.max_def] at ht
+  by_cases ho : offset < 0
+  · have h2 : ¬ offset ≥ 0 := by omega
+    simp only [ho, h2, if_true, if_false] at ht ⊢
+    rw [if_pos]
+    · congr 1; congr 1 <;> omega
+    · (repeat' split at ht) <;> omega
+  · have h2 : offset ≥ 0 := by omega
+    simp only [ho, h2, if_true, if_false] at ht ⊢
+    rw [if_pos]
+    · congr 1; congr 1 <;> omega
+    · (repeat' split at ht) <;> omega
+
+theorem diagonal_positions (rows cols offset : Int) (hr : 0 ≤ rows) (hc : 0 ≤ cols) :
+    diagonal.modelPositions rows cols offset = diagonal.specPositions rows cols offset := by
+  unfold diagonal.modelPositions diagonal.specPositions
+  have hl : sliceLen cols (if offset < 0 then 0 else offset) ((if offset < 0 then 0 else offset) + diagonal.modelLen rows cols offset) 1
+      = (diagonal.specLen rows cols offset).toNat := by
+    have := diagonal_slice rows cols offset hr hc
+    omega
+  rw [hl]
+  apply List.map_congr_left
+  intro t ht
+  exact diagonal_pos rows cols offset t (by simpa using ht)
+
+/-! ## unfold element map -/
+
+theorem unfold_index_map (d size step : Int) (hs : 0 < step) (h0 : 0 ≤ size) (h : size ≤ d) :
+    unfold_.modelIdx d size step = unfold_.specIdx d size step
+    ∧ ∀ row ∈ unfold_.modelIdx d size step, ∀ x ∈ row, 0 ≤ x ∧ x < d := by
+  have hw := unfold_windows_agree d size step hs h
+  have hq : 0 ≤ (d - size) / step := Int.ediv_nonneg (by omega) (by omega)
+  have hwn : unfold_.windows d size step = (unfold_.specWindows d size step).toNat := by omega
+  constructor
+  · unfold unfold_.modelIdx unfold_.specIdx
+    rw [hwn]
+    simp
+  · intro row hrow x hx
+    unfold unfold_.modelIdx at hrow
+    simp only [List.mem_map, List.mem_range] at hrow
+    obtain ⟨w, hwlt, rfl⟩ := hrow
+    simp only [List.mem_map, List.mem_range] at hx
+    obtain ⟨j, hj, rfl⟩ := hx
+    unfold unfold_.specWindows at hw
+    have hwle : (w : Int) ≤ (d - size) / step := by omega
+    have hmul : (w : Int) * step ≤ (d - size) / step * step := Int.mul_le_mul_of_nonneg_right hwle (by omega)
+    have hdiv : (d - size) / step * step ≤ d - size := Int.ediv_mul_le _ (by omega)
+    have hj' : (j : Int) < size := by omega
+    have hwn0 : 0 ≤ (w : Int) * step := Int.mul_nonneg (by omega) (by omega)
+    omega
 
 end OV.Lemmas.C08
